@@ -79,20 +79,19 @@ def rule_day_instant(day, year, dt):
 
 
 def rule_is_dst(start, st, end, et, stdoff, dstoff, t, reading='A', span=4):
-    """DST at instant t for the rule, by the defining sentence of C04; reading A: an end instant equal to the start closes the
-    period at once, reading B: only a strictly later end instant closes it. Returns bool."""
+    """DST at instant t by the defining sentence of C04. Northern pattern (S(k)<=E(k)<=S(k+1)): periods [S(k),E(k));
+    southern (E(k)<=S(k)<=E(k+1)): periods [S(k),E(k+1)). When both patterns hold (start and end coincide every year) the
+    sentence is ambiguous: reading 'A' applies the northern formula, 'B' the southern one (callers require A == B)."""
     y = gmtime(t)[0]
-    S = [rule_day_instant(start, k, st - stdoff) for k in range(y - span, y + span + 1)]
-    E = [rule_day_instant(end, k, et - dstoff) for k in range(y - span, y + span + 2)]
-    for s in S:
-        if s <= t:
-            if reading == 'A':
-                closed = any(s <= e <= t for e in E)
-            else:
-                closed = any(s < e <= t for e in E)
-            if not closed:
-                return True
-    return False
+    ys = list(range(y - span, y + span + 2))
+    S = {k: rule_day_instant(start, k, st - stdoff) for k in ys}
+    E = {k: rule_day_instant(end, k, et - dstoff) for k in ys}
+    north = all(S[k] <= E[k] <= S[k + 1] for k in ys[:-1])
+    south = all(E[k] <= S[k] <= E[k + 1] for k in ys[:-1])
+    use_north = north and (not south or reading == 'A')
+    if use_north:
+        return any(S[k] <= t < E[k] for k in ys[:-1])
+    return any(S[k] <= t < E[k + 1] for k in ys[:-1])
 
 
 def rule_pattern(start, st, end, et, stdoff, dstoff, years):
